@@ -148,6 +148,7 @@ func (s *c13sub) installed() bool { return !s.finished && !s.failed }
 
 type c13client struct {
 	c     *rig.Conn
+	ep    net.EndPoint
 	cl    bus.Client
 	proxy bus.Proxy
 }
@@ -182,6 +183,7 @@ type c13world struct {
 	mode     int      // c13mode at creation
 	mayBlock bool     // a SubscribeID that neither returns nor sends is waiting for another one's remote call (repaired code)
 	split    []string // frames that went out between two Write calls of another frame
+	mid      *c13mid  // what it takes to stop the mailbox goroutine inside a request (c13mid.go), made on first use
 }
 
 // c13serialised: SubscribeID / cancel wait for a remote call of the same client that is in flight
@@ -230,7 +232,7 @@ func c13new(nclients int) *c13world {
 			panic(err)
 		}
 		cl := bus.NewClient(ch)
-		w.clients = append(w.clients, &c13client{c: c, cl: cl, proxy: bus.NewProxy(cl, object.FullMetaObject(c13meta()), w.sid, 1)})
+		w.clients = append(w.clients, &c13client{c: c, ep: ep, cl: cl, proxy: bus.NewProxy(cl, object.FullMetaObject(c13meta()), w.sid, 1)})
 	}
 	w.mode = c13mode
 	if w.mode != 0 {
@@ -505,7 +507,7 @@ func (w *c13world) mbox(c int) {
 func (w *c13world) pendingReply() (int, bool) {
 	for i, cl := range w.clients {
 		for _, b := range cl.c.Down.Blocked() {
-			if b.Head && (b.Hdr.Type == net.Reply || b.Hdr.Type == net.Error) {
+			if b.Head && b.Hdr.Service == w.sid && (b.Hdr.Type == net.Reply || b.Hdr.Type == net.Error) {
 				return i, true
 			}
 		}
@@ -620,13 +622,16 @@ func (w *c13world) reply() {
 	}
 	cl := w.clients[c]
 	nw, nf := cl.c.Down.Writes(), len(cl.c.Down.Frames())
+	sid := w.sid
 	for _, b := range cl.c.Down.Blocked() {
-		if b.Head && (b.Hdr.Type == net.Reply || b.Hdr.Type == net.Error) {
+		if b.Head && b.Hdr.Service == sid && (b.Hdr.Type == net.Reply || b.Hdr.Type == net.Error) {
 			w.noteSplit(c, b)
 			break
 		}
 	}
-	cl.c.Down.Release(func(f rig.Frame) bool { return f.Head && (f.Hdr.Type == net.Reply || f.Hdr.Type == net.Error) })
+	cl.c.Down.Release(func(f rig.Frame) bool {
+		return f.Head && f.Hdr.Service == sid && (f.Hdr.Type == net.Reply || f.Hdr.Type == net.Error)
+	})
 	w.released(c, nw, nf, "reply")
 	w.lab("LReply")
 	w.settle()
@@ -718,6 +723,7 @@ func (w *c13world) emitSend() {
 // the return of SubscribeID, or the end of a cancel (LFanClose).
 func (w *c13world) cliRecv(c int) {
 	cl := w.clients[c]
+	w.skipFillers(c)
 	before := cl.c.Down.Read()
 	f, ok := cl.c.Down.ReleaseOne()
 	if !ok {
@@ -785,6 +791,7 @@ func (w *c13world) dispatched(c int, f rig.Frame) {
 // capacity for bursts of at most 100 events and has the same outcome).
 func (w *c13world) burst(c int) {
 	cl := w.clients[c]
+	w.skipFillers(c)
 	var frames []rig.Frame
 	before := cl.c.Down.Read()
 	for {
@@ -924,8 +931,8 @@ func (w *c13world) drain() {
 		if moved {
 			continue
 		}
-		for c, cl := range w.clients {
-			if len(cl.c.Down.Parked()) > 0 {
+		for c := range w.clients {
+			if w.parkedDown(c) > 0 {
 				w.cliRecv(c)
 				moved = true
 				break
@@ -1009,6 +1016,9 @@ func (w *c13world) oracles() []c13verdict {
 	}
 	if len(w.split) > 0 {
 		hist += "; note: " + strings.Join(w.split, "; ")
+	}
+	if w.mid != nil && len(w.mid.placed) > 0 {
+		hist += "; note: " + strings.Join(w.mid.placed, "; ")
 	}
 	emIndex := map[uint32]int{}
 	for i, e := range w.emits {
@@ -1438,9 +1448,13 @@ func c13sequential(rng *hx.Rng, nops, nconn, nsig, maxsubs int) *c13world {
 		switch k := rng.Intn(10); {
 		case k < 3 && len(w.subs) < maxsubs:
 			h++
-			w.startSub(rng.Intn(nconn), c13sigs[rng.Intn(nsig)], h)
+			c := rng.Intn(nconn)
+			w.startSub(c, c13sigs[rng.Intn(nsig)], h)
+			c13midMaybe(rng, w, c, nsig, &payload)
 		case k < 5 && len(live) > 0:
-			w.startCancel(live[rng.Intn(len(live))])
+			s := live[rng.Intn(len(live))]
+			w.startCancel(s)
+			c13midMaybe(rng, w, s.conn, nsig, &payload)
 		default:
 			payload++
 			w.emitSnap(c13sigs[rng.Intn(nsig)], c13sized(rng, payload))
@@ -1460,6 +1474,7 @@ func c13interleaved(rng *hx.Rng, nsteps int) *c13world {
 	payload := uint32(500)
 	h := 0
 	nc := len(w.clients)
+	mids := 2 // requests of this schedule that may get an emission inside (c13mid.go)
 	for i := 0; i < nsteps && len(w.bad) == 0; i++ {
 		type act func()
 		var acts []act
@@ -1491,11 +1506,19 @@ func c13interleaved(rng *hx.Rng, nsteps int) *c13world {
 				if len(cl.c.Up.Parked()) > 0 {
 					c := c
 					add(3, func() { w.mbox(c) })
+					if mids > 0 && w.midOK(c) {
+						add(2, func() {
+							mids--
+							payload++
+							sig, p := c13sigs[rng.Intn(2)], c13sized(rng, payload)
+							w.mboxMid(c, func() { w.emitWhole(sig, p) })
+						})
+					}
 				}
 			}
 		}
-		for c, cl := range w.clients {
-			if len(cl.c.Down.Parked()) > 0 {
+		for c := range w.clients {
+			if w.parkedDown(c) > 0 {
 				c := c
 				add(3, func() { w.cliRecv(c) })
 			}
@@ -1511,7 +1534,10 @@ func runC13(res *hx.Result, rng *hx.Rng, tier string, outdir string) {
 		"executed label by label through harness-owned streams; non-trivial = at least 2 emissions with a change of the " +
 		"subscriber set between them; distinct by sha256 of the label sequence; client side: sequences of subscribe / cancel / " +
 		"emit / one receive attempt of one subscriber by up to 6 subscribers of 3 signals on one client whose readers read only " +
-		"when the sequence says so; non-trivial = at least 2 subscribers and 2 emissions"
+		"when the sequence says so; non-trivial = at least 2 subscribers and 2 emissions; emissions placed inside the mailbox " +
+		"goroutine's processing of a registerEvent / unregisterEvent (scripts, one request in three of the sequential schedules, up " +
+		"to two per interleaved schedule); raw registerEvent / unregisterEvent sequences with colliding ids, also next to " +
+		"connections whose writes fail (EPIPE, ECONNRESET, io.EOF), that were closed, that fail once or are slow"
 	nSeq, nInter := 200, 150
 	if tier == "thorough" {
 		nSeq, nInter = 3000, 5000
@@ -1523,7 +1549,15 @@ func runC13(res *hx.Result, rng *hx.Rng, tier string, outdir string) {
 	// the client side with readers that the harness controls (c13fwd.go).  First: it reads the state of its
 	// forwarders off runtime.Stack dumps, whose cost grows with the goroutines the other families leave behind
 	// (40 minutes instead of 3 in the thorough tier when it ran last).  Its own random stream.
+	t0 := time.Now()
+	lap := func(what string) { // QV_C13_TIMING=1: where the time goes
+		if os.Getenv("QV_C13_TIMING") != "" {
+			fmt.Fprintf(os.Stderr, "C13 %-28s %6.2fs\n", what, time.Since(t0).Seconds())
+		}
+		t0 = time.Now()
+	}
 	c13runFwd(res, hx.NewRng(res.Seed*0x9e3779b97f4a7c15+13), tier, outdir)
+	lap("client-side family")
 	// defect switches: replay of the C13_refuted_* witnesses on the implementation
 	w17, on17 := c13sched17()
 	w16, on16 := c13sched16()
@@ -1538,6 +1572,14 @@ func runC13(res *hx.Result, rng *hx.Rng, tier string, outdir string) {
 		hx.Bool(on15), hx.Bool(on16), hx.Bool(on17), hx.Bool(dup))
 	cf := hx.NewCases(outdir, "C13", "From QV Require Import Signals C13Run.", "mismatches g cases", res, "cases", "kcase")
 	cf.Extra = append(cf.Extra, cfg)
+	if strings.HasPrefix(os.Getenv("QV_C13_HEALTH"), "only:") { // campaign: QV_C13_HEALTH=only:N random sequences with connections in bad health, nothing else
+		for _, w := range []*c13world{w17, w16, w15} {
+			w.close()
+		}
+		cf.Flush()
+		c13runRaw(res, rng, tier, outdir, cfg)
+		return
+	}
 
 	finish := func(w *c13world, name string) {
 		w.report(res, sw)
@@ -1570,6 +1612,25 @@ func runC13(res *hx.Result, rng *hx.Rng, tier string, outdir string) {
 		w, name := f()
 		finish(w, "script-"+name)
 	}
+	lap("probes, scripts")
+	// an emission inside the mailbox goroutine's processing of a request (c13mid.go)
+	for i, f := range c13midScripts() {
+		for m := 0; m <= 3; m++ {
+			if tier != "thorough" && m != 0 && m != 1+i%3 {
+				continue
+			}
+			c13mode = m
+			w, name := f()
+			c13mode = 0
+			for _, n := range w.notes {
+				if strings.HasPrefix(n, "an emission could not be placed") {
+					res.Notes = append(res.Notes, "C13 script-"+name+": "+n)
+				}
+			}
+			finish(w, "script-"+name)
+		}
+	}
+	lap("emission-inside scripts")
 	// the same scripts on an object with statistics and/or tracing enabled
 	for i, f := range c13scripts() {
 		for m := 1; m <= 3; m++ {
@@ -1582,6 +1643,10 @@ func runC13(res *hx.Result, rng *hx.Rng, tier string, outdir string) {
 			finish(w, "script-"+name)
 		}
 	}
+	lap("scripts in other modes")
+	if tier == "thorough" {
+		c13midLeft = 600
+	}
 	for i := 0; i < nSeq; i++ {
 		c13mode = (i / 2) % 4
 		if i%2 == 0 {
@@ -1590,11 +1655,17 @@ func runC13(res *hx.Result, rng *hx.Rng, tier string, outdir string) {
 			finish(c13sequential(rng, 14+rng.Intn(14), 2, 1+rng.Intn(2), 14), "sequential-focused")
 		}
 	}
+	lap("sequential")
+	if tier == "thorough" {
+		c13midLeft = 600
+	}
 	for i := 0; i < nInter; i++ {
 		c13mode = i % 4
 		finish(c13interleaved(rng, 15+rng.Intn(30)), "interleaved")
 	}
 	c13mode = 0
+	c13midLeft = 0 // the exhaustive sequences do not use it
+	lap("interleaved")
 	if tier == "thorough" {
 		// every sequence of at most 4 operations over 2 connections x 2 signals (one through the generated proxy)
 		res.Exhaustive = true
@@ -1642,5 +1713,7 @@ func runC13(res *hx.Result, rng *hx.Rng, tier string, outdir string) {
 	}
 	cf.Flush()
 	// registrations with caller-chosen ids (c13raw.go)
+	lap("exhaustive, flush")
 	c13runRaw(res, rng, tier, outdir, cfg)
+	lap("raw family")
 }
